@@ -29,6 +29,13 @@ pub fn dispatch(op: &str, a: &[Term]) -> Option<Term> {
             let r = prime::is_prime(&a[0].int());
             tl(vec![tbool(r), tbytes(&verif_hooks::take_log())])
         }
+        // several calls one after the other on the same thread (state kept between calls must not change an answer)
+        "is_prime_seq" => {
+            verif_hooks::install(a[1].u64(), vec![]);
+            let r: Vec<Term> = a[0].ints().iter().map(|n| tbool(prime::is_prime(n))).collect();
+            let _ = verif_hooks::take_log();
+            tl(r)
+        }
         "trial_factorize" => tl(factorize::factorize(&a[0].int()).iter().map(|(p, e)| tl(vec![tb(p), ti(*e)])).collect()),
         _ => return None,
     })
